@@ -1,0 +1,47 @@
+//go:build verif && amd64 && go1.17 && !go1.27
+// +build verif,amd64,go1.17,!go1.27
+
+package jitdec
+
+import (
+	"encoding/hex"
+	"fmt"
+	"reflect"
+	"sort"
+	"strings"
+)
+
+// VerifDumpProgram lists every instruction of the decoder program of vt with all of its operands
+// (disassemble() omits the operands of check_char_0, go_skip, skip_empty, add, check_empty):
+// one `op vi vb` triple per instruction, `;` separated; switch tables as `[l0,l1,..]`, field tables as
+// `{hexname=id,...}` sorted by name. Type operands are not printed.
+func VerifDumpProgram(vt reflect.Type) (string, error) {
+	p, err := newCompiler().compile(vt)
+	if err != nil {
+		return "", err
+	}
+	out := make([]string, 0, len(p))
+	for _, ins := range p {
+		s := fmt.Sprintf("%s %d %d", strings.ReplaceAll(ins.op().String(), " ", "_"), ins.vi(), ins.vb())
+		switch ins.op() {
+		case _OP_switch:
+			var ls []string
+			for _, v := range ins.vs() {
+				ls = append(ls, fmt.Sprint(v))
+			}
+			s = fmt.Sprintf("switch [%s]", strings.Join(ls, ","))
+		case _OP_struct_field:
+			var fs []string
+			fm := ins.vf()
+			for i := uint64(0); i < fm.N; i++ {
+				if e := fm.At(i); e.Hash != 0 {
+					fs = append(fs, fmt.Sprintf("%s=%d", hex.EncodeToString([]byte(e.Name)), e.ID))
+				}
+			}
+			sort.Strings(fs)
+			s = fmt.Sprintf("struct_field {%s}", strings.Join(fs, ","))
+		}
+		out = append(out, s)
+	}
+	return strings.Join(out, ";"), nil
+}
